@@ -209,7 +209,7 @@ def prog_C15(ctx):
 
 
 def prog_C08(ctx):
-    generic(ctx, ['Dc4bcVerif.Props.C08'], 'nodediff', 'node', ['C08'], NODE_TRUSTED, NODE_RULE, cov_from_stats=node_cov)
+    generic(ctx, ['Dc4bcVerif.Props.C08', 'Dc4bcVerif.Props.C20Node'], 'nodediff', 'node', ['C08'], NODE_TRUSTED, NODE_RULE, cov_from_stats=node_cov)
 
 
 def monitor_only(ctx, driver, monitor_prefixes, cov_key, timeout=7200):
@@ -335,14 +335,21 @@ def prog_C20(ctx):
     def cov(ctx, st):
         ctx.cov.update(evaluations=st['Ops'] + st['Reinits'], distinct_nontrivial=st['HashEditKinds'] + st['Scenarios'], exhaustive=False,
                        reinitialisations=st['Reinits'], hash_edits=st['HashEdits'], driver_notes=(st.get('Notes') or [])[:10])
-    generic(ctx, ['Dc4bcVerif.Props.C20', 'Dc4bcVerif.Props.C12', 'Dc4bcVerif.Props.C08'], 'reinitdiff', 'reinit', ['C20'],
+    generic(ctx, ['Dc4bcVerif.Props.C20', 'Dc4bcVerif.Props.C20Node', 'Dc4bcVerif.Props.C12', 'Dc4bcVerif.Props.C08'], 'reinitdiff', 'reinit', ['C20'],
             ['translator: the order in which CalcStartReInitDKGMessageHash writes the fields (Gen/NodeGlue.lean reinitHashOrder), regenerated on every run; order_matches_source is kernel-evaluated',
              'reinitdiff: a completed real ceremony (signing batches and junk on the board, incl. a forged decline every original node rejected) is re-initialised from a dump of its board on fresh nodes with new communication keys and fresh airgapped databases with the same mnemonics, through GenerateReDKGMessage (+ GetAdaptedReDKG on dumps stripped of self-confirmations), ReInitDKG, the reinit operation and the airgapped replay; every node must end signing-ready with the same participants, threshold and public polynomial, every machine with the same share, a batch signed afterwards must verify (prysm) under the ORIGINAL group key; the confirmation hash must be the same on every node and change under every single-field edit (the Lean model of the hashed byte string must agree on every edit)',
              'assumed: SHA-1 collision resistance; %d rendering injective; the glue of reinitDKG / handleReinitDKG is exercised, not modelled'],
             'three ceremonies quick [(3,2) plain; (2,2) with signing batches and junk; (3,2) junk + 0.1.4 adaptation], seven thorough; per file: every header and participant field, and 7 fields of 12 (quick) or all (thorough) messages, messages of other rounds first',
             cov_from_stats=cov)
-    # the node side of a crafted reinit message (other rounds untouched) is probed by nodediff
+    # the node side: the Lean model of reinitDKG is compared with the real handler on real dumps (plain and adapted), and
+    # crafted reinit messages are probed against existing rounds
     res = run_linediff(ctx, 'nodediff', 'node')
+    if res is not None and res['lean_ok']:
+        rel = [d for d in res['diffs'] if d['op'].startswith('reinit')]
+        if rel:
+            ctx.broken.append(dict(kind='correspondence', what='nodediff: the real reinitDKG and the Lean model disagree on %d re-initialisations' % len(rel),
+                                   detail='', diffs=rel[:4], script=os.path.join(res['dir'], 'ops.txt')))
+        ctx.cov['reinit_handler_model'] = dict(reinitialisations_compared=(res['stats'].get('Reinits') or 0), disagreements=len(rel))
     if res is not None:
         for mline in (res['stats'].get('Monitors') or []):
             if 'reinit' in mline and (mline.startswith('C08 ') or mline.startswith('C18 ')):
